@@ -4,6 +4,8 @@
 usage: tools/mutcampaign.py gen  <file relative to repo> <outdir>          # write mutants + index.json
        tools/mutcampaign.py test <outdir> [jobs]                           # which survive the test suite
        tools/mutcampaign.py check <outdir> <Cxx,Cyy> [max] [--seed N]      # run checks on survivors
+       tools/mutcampaign.py checkfn <outdir> [max] [--seed N]              # modular: only the mutated
+                                                                           # function's own unit
 
 A mutant that passes the repository's tests AND the checks is either equivalent, irrelevant to the
 properties, or a weakness of the contracts: those are listed for manual triage (no verdict is
@@ -199,12 +201,80 @@ def check(outdir, props, mx=None, seed=0):
         json.dump(index, open(os.path.join(outdir, 'index.json'), 'w'), indent=0)
 
 
+def _qualname_at(rel, line):
+    """Class.function (or function) of the repository source enclosing a line."""
+    tree = ast.parse(open(os.path.join(REPO, rel)).read())
+    best = None
+    for n in tree.body:
+        if isinstance(n, ast.ClassDef):
+            for m in ast.walk(n):
+                if isinstance(m, ast.FunctionDef) and m.lineno <= line <= m.end_lineno:
+                    if m in n.body:
+                        best = f'{n.name}.{m.name}'
+        elif isinstance(n, ast.FunctionDef) and n.lineno <= line <= n.end_lineno:
+            best = n.name
+    return best
+
+
+def checkfn(outdir, mx=None, seed=0, claimed=None):
+    """Modular variant of `check`: a mutant changes one function, so only that function's own unit
+    (VERIF_ONLY) is re-verified, for every claimed property the unit belongs to.  A mutant of a
+    function that is not a verified unit is reported as NOUNIT (inlined at its call sites, or not
+    under contract at all): those need the full check of the callers' properties."""
+    sys.path.insert(0, VERIF)
+    from pyvc import load
+    reg = load.load()
+    index = json.load(open(os.path.join(outdir, 'index.json')))
+    surv = [m for m in index if m.get('tests') == 'pass' and 'verdict' not in m]
+    random.Random(seed).shuffle(surv)
+    if mx:
+        surv = surv[:mx]
+    for m in surv:
+        qn = _qualname_at(m['file'], m['line'])
+        m['function'] = qn
+        mod = 'bridge_env.' + m['file'][len('bridge_env/'):-3].replace('/', '.')
+        full = f'{mod}.{qn}'
+        c = reg.fns.get(full)
+        if c is None or not (c.mode == 'contract' and c.verify):
+            m['verdict'] = 'NOUNIT'
+            m['mode'] = None if c is None else c.mode
+            print(f"{m['id']} NOUNIT    {m['kind']:9s} L{m['line']:<4d} {qn}: {m['before'][:80]}", flush=True)
+            json.dump(index, open(os.path.join(outdir, 'index.json'), 'w'), indent=0)
+            continue
+        props = [p for p in sorted(c.props) if claimed is None or p in claimed]
+        d = _tree(outdir, m['id'], m['file'], 'chk')
+        m['checks'] = {}
+        for pid in props:
+            env = dict(os.environ, BRIDGE_ENV_REPO=d, VERIF_OUT=os.path.join(d, 'out'),
+                       VERIF_ONLY=full)
+            try:
+                r = subprocess.run([os.path.join(VERIF, 'check'), pid], env=env,
+                                   capture_output=True, text=True, timeout=1500)
+                lines = (r.stdout + r.stderr).strip().splitlines()
+                m['checks'][pid] = dict(exit=r.returncode, head=[ln[:200] for ln in lines
+                                                                   if ln.startswith(('VIOLATION', '  ENGINE', '  UNDEC'))][:3])
+            except subprocess.TimeoutExpired:
+                m['checks'][pid] = dict(exit='timeout', head=[])
+            if m['checks'][pid]['exit'] == 1:
+                break
+        shutil.rmtree(d, ignore_errors=True)
+        verdict = 'CAUGHT' if any(c_['exit'] == 1 for c_ in m['checks'].values()) else (
+            'undecided' if any(c_['exit'] in (2, 3, 'timeout') for c_ in m['checks'].values()) else 'SURVIVES')
+        m['verdict'] = verdict
+        print(f"{m['id']} {verdict:9s} {m['kind']:9s} L{m['line']:<4d} {qn}: {m['before'][:80]}", flush=True)
+        json.dump(index, open(os.path.join(outdir, 'index.json'), 'w'), indent=0)
+
+
 if __name__ == '__main__':
     cmd = sys.argv[1]
     if cmd == 'gen':
         gen(sys.argv[2], sys.argv[3])
     elif cmd == 'test':
         test(sys.argv[2], int(sys.argv[3]) if len(sys.argv) > 3 else 12)
+    elif cmd == 'checkfn':
+        mx = int(sys.argv[3]) if len(sys.argv) > 3 and sys.argv[3].isdigit() else None
+        seed = int(sys.argv[sys.argv.index('--seed') + 1]) if '--seed' in sys.argv else 0
+        checkfn(sys.argv[2], mx, seed)
     elif cmd == 'check':
         mx = int(sys.argv[4]) if len(sys.argv) > 4 and sys.argv[4].isdigit() else None
         seed = int(sys.argv[sys.argv.index('--seed') + 1]) if '--seed' in sys.argv else 0
